@@ -343,6 +343,35 @@ func cmdForms(args []string) {
 			return nil, nil
 		})
 		tw.Emit(Rec{"ev": "funcv", "id": id, "name": name, "plain": a, "funcv": b, "status": r.status})
+		// the same with items of other kinds in the list - a comment (block and line) as the last item, a literal, a tag, a
+		// null item, a Dict-free nested group, a Line(): whatever the items are, the two ways of filling the group agree
+		mixes := [][]func() jen.Code{
+			{func() jen.Code { return jen.Id("x") }, func() jen.Code { return jen.Id("y").Comment("two\nlines") }},
+			{func() jen.Code { return jen.Id("x") }, func() jen.Code { return jen.Comment("last") }},
+			{func() jen.Code { return jen.Comment("first") }, func() jen.Code { return jen.Lit("s") }, func() jen.Code { return jen.Null() }},
+			{func() jen.Code { return jen.Line().Id("x") }, func() jen.Code { return jen.Id("T").Tag(map[string]string{"k": "v"}) }, func() jen.Code { return jen.Line() }},
+			{func() jen.Code { return jen.Qual("x/d", "V") }, func() jen.Code { return jen.Index().Int().Values(jen.Lit(1)) }, func() jen.Code { return jen.Empty() }},
+		}
+		for mi, mix := range mixes {
+			id++
+			tw.Traces++
+			pa, fa := append([]reflect.Value{}, plainArgs[:bf.Type().NumIn()-1]...), append([]reflect.Value{}, funcArgs[:bf.Type().NumIn()-1]...)
+			for _, m := range mix {
+				pa = append(pa, reflect.ValueOf(m()))
+			}
+			fa = append(fa, reflect.ValueOf(func(g *jen.Group) {
+				for _, m := range mix {
+					g.Add(m())
+				}
+			}))
+			var a2, b2 string
+			r2 := safely(func() ([]byte, error) {
+				a2 = rawOf(bf.Call(pa)[0].Interface().(*jen.Statement))
+				b2 = rawOf(ff.Call(fa)[0].Interface().(*jen.Statement))
+				return nil, nil
+			})
+			tw.Emit(Rec{"ev": "funcv", "id": id, "name": fmt.Sprintf("%s (items of mixed kinds %d)", name, mi+1), "plain": a2, "funcv": b2, "status": r2.status})
+		}
 	}
 	// GoString, Render and RenderWithFile(fresh File) agree - also for the n-th statement printed in this process,
 	// with qualified identifiers whose paths compete for one package name
